@@ -3,7 +3,7 @@ Totality of the parser model (property C16, parser part): with the fuel the entr
 no parsing function ever returns the out-of-fuel result, and every successful call consumes
 tokens (`Lt`: strictly fewer tokens remain; `Le`: not more).
 
-`Spec P res` : `res` is not `error fuel`, and `P v` holds if `res = ok v`.  Every function of
+`Spec P res` : `res` is neither `error fuel` nor `error (ub _)`, and `P v` holds if `res = ok v`.  Every function of
 the model gets one `…_spec` lemma; the lemmas are chained with `Spec_bind` along the
 `do`-blocks.  The three mutually recursive groups (expressions, statements, class members)
 are handled by induction on the fuel with an invariant `3 * (remaining tokens) + c ≤ fuel`,
@@ -13,14 +13,14 @@ import OratioProofs.Lemmas.ParserBasic
 
 namespace Oratio.Riddle
 
-/-- a result that is not "out of fuel", with a postcondition on successful results -/
+/-- a result that is neither "out of fuel" nor "undefined behaviour", with a postcondition on successful results -/
 def Spec {β : Type} (P : β → Prop) (res : Except PErr β) : Prop :=
   match res with
   | .ok v => P v
-  | .error e => e ≠ .fuel
+  | .error e => e ≠ .fuel ∧ ∀ w, e ≠ .ub w
 
 @[simp] theorem Spec_ok {β : Type} {P : β → Prop} {v : β} : Spec P (.ok v) ↔ P v := Iff.rfl
-@[simp] theorem Spec_error {β : Type} {P : β → Prop} {e : PErr} : Spec P (.error e : Except PErr β) ↔ e ≠ .fuel := Iff.rfl
+@[simp] theorem Spec_error {β : Type} {P : β → Prop} {e : PErr} : Spec P (.error e : Except PErr β) ↔ (e ≠ .fuel ∧ ∀ w, e ≠ .ub w) := Iff.rfl
 @[simp] theorem Spec_pure {β : Type} {P : β → Prop} {v : β} : Spec P (pure v : Except PErr β) ↔ P v := Iff.rfl
 
 theorem Spec_bind {β γ : Type} {m : Except PErr β} {f : β → Except PErr γ} {P : β → Prop} {Q : γ → Prop}
@@ -36,7 +36,12 @@ theorem Spec_mono {β : Type} {P Q : β → Prop} {m : Except PErr β} (hm : Spe
 
 theorem Spec_ne_fuel {β : Type} {P : β → Prop} {m : Except PErr β} (hm : Spec P m) : m ≠ .error .fuel := by
   cases m with
-  | error e => intro h; cases h; exact hm rfl
+  | error e => intro h; cases h; exact hm.1 rfl
+  | ok v => intro h; cases h
+
+theorem Spec_ne_ub {β : Type} {P : β → Prop} {m : Except PErr β} (hm : Spec P m) (w : String) : m ≠ .error (.ub w) := by
+  cases m with
+  | error e => intro h; cases h; exact hm.2 w rfl
   | ok v => intro h; cases h
 
 syntax "spec_leaf" : tactic
@@ -509,13 +514,22 @@ theorem parseField_spec (toks : List Tok) : Spec (Lt toks) (parseField toks) := 
   sb tp htp; sb vs hvs; sb t3 h3; fin
 macro_rules | `(tactic| spec_leaf) => `(tactic| exact parseField_spec _)
 
+theorem retType_spec (toks : List Tok) : Spec (Lt toks) (retType toks) := by
+  unfold retType; try simp only []
+  split
+  · split
+    · sb t ht; fin
+    · exact qid_spec _
+  · exact qid_spec _
+macro_rules | `(tactic| spec_leaf) => `(tactic| exact retType_spec _)
+
 theorem parseMethod_spec (toks : List Tok) : Spec (Lt toks) (parseMethod toks) := by
   unfold parseMethod; try simp only []
   sb m hm
   apply Spec_bind (P := Le toks)
   · split
     · fin
-    · refine Spec_mono (qid_spec toks) ?_
+    · refine Spec_mono (retType_spec toks) ?_
       intro v hv; fin
   · intro rt hrt
     sb n hn; sb ps hps; sb ss hss; fin
@@ -662,10 +676,23 @@ theorem lookTopMethod_spec (toks : List Tok) : Spec (fun _ => True) (lookTopMeth
   · fin
 macro_rules | `(tactic| spec_leaf) => `(tactic| exact lookTopMethod_spec _)
 
+theorem lookTopPrimMethod_spec (toks : List Tok) : Spec (fun _ => True) (lookTopPrimMethod toks) := by
+  unfold lookTopPrimMethod; try simp only []
+  sb t1 h1
+  split
+  · sb t2 h2; fin
+  · fin
+macro_rules | `(tactic| spec_leaf) => `(tactic| exact lookTopPrimMethod_spec _)
+
 theorem topItem_spec (toks : List Tok) : Spec (Lt toks) (topItem toks) := by
   unfold topItem; try simp only []
   split
   · fin
+  · sb d hd; fin
+  · sb d hd; fin
+  · sb d hd; fin
+  · sb d hd; fin
+  · sb d hd; fin
   · sb d hd; fin
   · sb d hd; fin
   · sb d hd; fin
@@ -683,9 +710,11 @@ theorem topItem_spec (toks : List Tok) : Spec (Lt toks) (topItem toks) := by
     · sb d hd; fin
     · sb d hd; fin
   · split
-    · sb d hd; fin
+    · sb b hb
+      split
+      · sb d hd; fin
+      · sb d hd; fin
     · fin
-  · fin
 
 theorem topLoop_spec : ∀ (F : Nat) (toks : List Tok), toks.length + 1 ≤ F → Spec (fun _ => True) (topLoop F toks) := by
   intro F
